@@ -28,6 +28,28 @@ def handle : List String → Option String
     let i ← i.toInt?
     let r := cmp "_check_index" Gen.check_index.untranslatable (resStr toString (Gen.check_index (n : Int) i)) real
     pure ((r.orElse (fun _ => checkIndex n i)).getD "ok")
+  -- the bulk distance functions: definitions generated from the current source against the real results (bit patterns)
+  | ["pyg.array", kind, dtq, dtr, q, rs, real] => do
+    let q := mkArr (← parseDType dtq) (← parseNats q)
+    let c := mkSigs (← kind.toNat?) (← parseDType dtr) (← parseNatLists rs)
+    pure ((cmp "jaccarddist_array" Gen.jaccarddist_array.untranslatable (ndStr true (Gen.jaccarddist_array q c none)) real).getD "ok")
+  | ["pyg.matrix", kind, dtq, dtr, qs, rs, ridx, chunk, real] => do
+    let dq ← parseDType dtq
+    let qs := (← parseNatLists qs).map (mkArr dq)
+    let c := mkSigs (← kind.toNat?) (← parseDType dtr) (← parseNatLists rs)
+    let ridx ← if ridx == "~" then some none else (parseInts ridx).map some
+    let chunk ← parseOptInt chunk
+    let g := Gen.jaccarddist_matrix qs c ridx none chunk ()
+    -- an empty result (no queries or no references) is sent as one empty list per query
+    let gs := match g with
+      | .ok a => if a.rows.all (·.isEmpty) then natListsOf (qs.map (fun _ => ([] : List Nat))) else ndStr false g
+      | _ => ndStr false g
+    pure ((cmp "jaccarddist_matrix" Gen.jaccarddist_matrix.untranslatable gs real).getD "ok")
+  | ["pyg.pairwise", kind, dt, ss, idx, flat, real] => do
+    let c := mkSigs (← kind.toNat?) (← parseDType dt) (← parseNatLists ss)
+    let idx ← if idx == "~" then some none else (parseInts idx).map some
+    let flat ← parseBool flat
+    pure ((cmp "jaccarddist_pairwise" Gen.jaccarddist_pairwise.untranslatable (ndStr flat (Gen.jaccarddist_pairwise c idx flat none ())) real).getD "ok")
   -- built-ins of the run-time library against the real CPython built-ins
   | ["pyrt.find", hay, pat, start, stop, real] => do
     let hay ← parseHex hay
